@@ -103,7 +103,62 @@ def _(ctx):
     from gm2v import ring
     ctx.record('selftest.sign_flip_is_not_identity', PROVED if not ring.identity(z3real(r), -spec) else ERROR, 'B', 0, 'ring normalisation distinguishes -spec')
 
-@obligation('C03.thdm.amu1L', fns=[(H1, n) for n in ('amu1L', 'AS', 'AA', 'AHp')])
+THDM1L_REPLAY = r'''
+#include "THDM/gm2_1loop_helpers.hpp"
+#include "gm2_ffunctions.hpp"
+#include <cstdio>
+#include <cmath>
+#include <complex>
+// REAL thdm::amu1L against the flavour-summed Eq.(27) of arXiv:1607.06292 evaluated independently (long double, the library's F1C, F2C, F1N) for complex, flavour-VIOLATING Yukawa matrices
+typedef std::complex<long double> C;
+int main() {
+   int bad = 0; unsigned s = 12345u;
+   auto rnd = [&]() { s = s*1664525u + 1013904223u; return ((s >> 8) & 0xffff)/65535.0 - 0.5; };
+   for (int k = 0; k < 40; k++) {
+      gm2calc::thdm::THDM_1L_parameters p;
+      p.alpha_em = 1/137.036; p.mm = 0.1056583745; p.mw = 80.379; p.mz = 91.1876; p.mhSM = 125.09; p.mA = 150 + 400*std::fabs(rnd()); p.mHp = 200 + 500*std::fabs(rnd());
+      p.ml << 0.000511, 0.1056583745, 1.77686; p.mv << 0, 0, 0; p.mh << 125.09*(1 + 0.2*rnd()), 300 + 600*std::fabs(rnd());
+      const double sc = k < 20 ? 0.01 : 1.0;
+      for (int i = 0; i < 3; i++) for (int j = 0; j < 3; j++) {
+         p.ylh(i,j) = std::complex<double>(sc*rnd(), sc*rnd()); p.ylH(i,j) = std::complex<double>(sc*rnd(), sc*rnd());
+         p.ylA(i,j) = std::complex<double>(sc*rnd(), sc*rnd()); p.ylHp(i,j) = std::complex<double>(sc*rnd(), sc*rnd());
+      }
+      const long double pi = 3.14159265358979323846264338327950288L;
+      auto AS = [&](int g, long double m2, const Eigen::Matrix<std::complex<double>,3,3>& y, int sign) -> long double {
+         const long double x = (long double)p.ml(g)*p.ml(g)/m2;
+         const C a(y(g,1).real(), y(g,1).imag()), b(y(1,g).real(), y(1,g).imag());
+         return (std::norm(a) + std::norm(b))*(long double)gm2calc::F1C((double)x)/24 + sign*std::real(std::conj(a)*std::conj(b))*(long double)p.ml(g)/p.ml(1)*(long double)gm2calc::F2C((double)x)/3;
+      };
+      auto AHp = [&](int g, long double m2, const Eigen::Matrix<std::complex<double>,3,3>& y) -> long double {
+         const C a(y(g,1).real(), y(g,1).imag());
+         return -std::norm(a)/48*((long double)gm2calc::F1N((double)(p.mv(1)*p.mv(1)/m2)) + (long double)gm2calc::F1N((double)(p.mv(g)*p.mv(g)/m2)));
+      };
+      long double tot = 0, abs_sum = 0;
+      const long double mh2 = (long double)p.mh(0)*p.mh(0), mH2 = (long double)p.mh(1)*p.mh(1), mA2 = (long double)p.mA*p.mA, mHp2 = (long double)p.mHp*p.mHp, mhSM2 = (long double)p.mhSM*p.mhSM;
+      for (int g = 0; g < 3; g++) {
+         const long double t[4] = {AS(g, mh2, p.ylh, 1)/mh2, AS(g, mH2, p.ylH, 1)/mH2, AS(g, mA2, p.ylA, -1)/mA2, AHp(g, mHp2, p.ylHp)/mHp2};
+         for (long double v : t) { tot += v; abs_sum += std::fabs(v); }
+      }
+      const long double sw2 = 1 - (long double)p.mw*p.mw/((long double)p.mz*p.mz), g2 = std::sqrt(4*pi*p.alpha_em/sw2), v = 2*p.mw/g2, ysm = p.mm/v, xs = (long double)p.ml(1)*p.ml(1)/mhSM2;
+      const long double ASM = 2*ysm*ysm*(long double)gm2calc::F1C((double)xs)/24 + ysm*ysm*(long double)gm2calc::F2C((double)xs)/3;
+      tot -= ASM/mhSM2; abs_sum += std::fabs(ASM/mhSM2);
+      const long double pref = (long double)p.mm*p.mm/(8*pi*pi), want = pref*tot;
+      const double got = gm2calc::thdm::amu1L(p);
+      if (!(std::fabs((long double)got - want) <= 1e-8L*pref*abs_sum)) { bad++; if (bad < 6) std::printf("point %d: amu1L = %.12e, Eq.(27) evaluated independently = %.12Le (sum of absolute terms %.3Le)\n", k, got, want, pref*abs_sum); }
+   }
+   std::printf("%d of 40 random parameter sets with flavour-violating complex Yukawa matrices disagree\n", bad);
+   return bad ? 1 : 0;
+}
+'''
+
+def thdm1l_replay(model, wd):
+    from gm2v import native
+    import subprocess
+    exe = native.build_against_library(wd, THDM1L_REPLAY, name='thdm_amu1L')
+    r = subprocess.run([exe], capture_output=True, text=True, timeout=120)
+    return r.returncode == 1, r.stdout.strip()[-1200:]
+
+@obligation('C03.thdm.amu1L', fns=[(H1, n) for n in ('amu1L', 'AS', 'AA', 'AHp')], replay=thdm1l_replay)
 def _(ctx):
     """ensures: amu1L(pars) == m_mu^2/(8 pi^2) [ sum_{S=h,H} sum_g A_S(g)/m_S^2 + sum_g A_A(g)/m_A^2 + sum_g A_H+(g)/m_H+^2 - A_S^SM/m_hSM^2 ]  with
     A_S(g) = (|y_g2|^2+|y_2g|^2) F1C(x)/24 + Re(y_g2* y_2g*) (m_g/m_mu) F2C(x)/3,  A_A likewise with -F2C,  A_H+(g) = -|y_g2|^2/48 (F1N(x_nu2)+F1N(x_nu_g)),
